@@ -31,13 +31,14 @@ CHANNELISATIONS = [(-4.0, 1500.0), (-0.1, 1500.1), (-1.0 / 3.0, 1234.5678), (0.1
 NARROW = (-5.0e-5, 1420.4057)     # 50 Hz channels at the HI line: single precision cannot tell neighbouring channels apart
 APIS = ("read_block", "read_block_fch1", "read_dedisp_block", "collapse", "bandpass", "read_chan", "dedisperse", "invert_freq", "downsample",
         "extract_samps", "extract_chans", "extract_bands", "subband", "apply_channel_mask", "remove_zerodm",
-        "block_downsample", "block_dedisperse", "block_get_tim", "block_to_file", "ts_downsample", "ts_pad", "ts_to_tim", "ts_to_dat", "plain_copy")
+        "block_downsample", "block_dedisperse", "block_get_tim", "block_to_file", "block_pad_samples", "ts_downsample", "ts_pad", "ts_to_tim", "ts_to_dat", "plain_copy",
+        "pulse_extractor")
 TSAMP = 6.4e-5
 TSTART = 58123.456789012345
 
 
 def REQUIRED(tier):
-    return [f"api:{a}" for a in APIS] + ["tstart_checks", "label_checks", "shape_checks", "foff>0", "start>0", "regime:crosses_utc_midnight", "regime:remainder_longer_than_output", "ts_to_dat:odd_length"]
+    return [f"api:{a}" for a in APIS] + ["tstart_checks", "label_checks", "shape_checks", "foff>0", "start>0", "regime:crosses_utc_midnight", "regime:remainder_longer_than_output", "ts_to_dat:odd_length", "regime:block_padded_in_front", "regime:block_padded_behind"]
 
 
 def cases(tier, seed):
@@ -348,7 +349,7 @@ def run_case(case, ctx):
                 os.unlink(name)
             nontriv = True
         elif api == "subband":
-            nsub = int(rng.choice([s for s in (1, 2, 4, 8) if nch % s == 0]))
+            nsub = int(rng.choice([s for s in (1, 2, 4, 8, 16, 32) if nch % s == 0]))    # incl. many narrow sub-bands (more sub-bands than channels in each)
             dm = float(rng.uniform(0, 3)) if foff < 0 else 0.0
             delays = np.asarray(fil.header.get_dmdelays(dm)).reshape(-1)
             if delays.min() < 0 or delays.max() >= nsamps:
@@ -380,9 +381,54 @@ def run_case(case, ctx):
             ck.shape(o.header, nsamps, nch)
             ck.tstart(o.header, start, reg)
             ck.labels(o.header, allch, fch1, foff, spacing_factor=1)
+        elif api == "pulse_extractor":
+            from sigpyproc.readers import PulseExtractor
+
+            if len(paths) > 1:
+                ctx.skip("PulseExtractor takes a single file"); return
+            width = int(rng.choice([1, 2, 3, 4]))
+            dm = float(rng.uniform(0, 3)) if foff < 0 else 0.0
+            where = str(rng.choice(["near_start", "middle", "near_end"]))
+            toa = {"near_start": int(rng.integers(0, 6)), "middle": N // 2, "near_end": N - 1 - int(rng.integers(0, 6))}[where]
+            pe = PulseExtractor(paths[0], toa, width, dm, min_nsamps=int(rng.choice([8, 16, 24])))
+            case = dict(case, toa=toa, width=width, dm=dm, where=where); ck.case = case
+            ctx.count(f"pulse_window:{where}")
+            b = pe.get_data(pad_mode=str(rng.choice(["median", "mean"])))
+            ck.shape(b.header, b.data.shape[1], b.data.shape[0])
+            if b.data.shape[1] != pe.nsamps:
+                ck.fail("pulse-window-length", f"block of {b.data.shape[1]} samples, window is {pe.nsamps}")
+            # the columns that hold file samples: sample index decoded from the labels, the rest is padding
+            t, c = _decode(b.data)
+            lo, hi = max(0, -pe.nstart), min(pe.nsamps, N - pe.nstart)
+            real = t[0, lo:hi] - np.arange(lo, hi)
+            if hi <= lo or np.any(real != pe.nstart):
+                ck.fail("pulse-window-content", f"window [{pe.nstart}, {pe.nstart + pe.nsamps}) of a {N}-sample file: the block's columns {lo}..{hi} do not hold file samples {pe.nstart + lo}..{pe.nstart + hi}")
+            else:
+                if pe.nstart < 0:
+                    ctx.count("regime:block_padded_in_front")
+                if pe.nstart + pe.nsamps > N:
+                    ctx.count("regime:block_padded_behind")
+                ck.tstart(b.header, int(pe.nstart), f"{reg}:padded-front" if pe.nstart < 0 else reg)    # column 0 of the block is file sample nstart (possibly before the file)
+            ck.labels(b.header, [[int(c[j, lo])] for j in range(b.data.shape[0])], fch1, foff)
+            nontriv = True
         elif api.startswith("block_"):
             b = fil.read_block(start, nsamps)
-            if api == "block_downsample":
+            if api == "block_pad_samples":
+                off = int(rng.choice([0, 0, int(rng.integers(1, 40))]))
+                nfin = nsamps + off + int(rng.integers(0, 40))
+                case = dict(case, offset=off, nsamps_final=nfin); ck.case = case
+                b2 = b.pad_samples(nfin, off, pad_mode=str(rng.choice(["median", "mean"])))
+                ck.shape(b2.header, b2.data.shape[1], b2.data.shape[0])
+                t, c = _decode(b2.data[:, off : off + nsamps])
+                if b2.data.shape[1] != nfin or np.any(t[0] != start + np.arange(nsamps)):
+                    ck.fail("pad-content", f"pad_samples({nfin}, {off}): the input block is not at columns {off}..{off + nsamps}")
+                else:
+                    if off:
+                        ctx.count("regime:block_padded_in_front")
+                    ck.tstart(b2.header, start - off, f"{reg}:padded-front" if off else reg)   # column 0 lies off samples before the block's first sample
+                ck.labels(b2.header, allch, fch1, foff)
+                nontriv = True
+            elif api == "block_downsample":
                 tf = int(rng.choice([1, 2, 3, 7, 32, 50]))      # incl. factors leaving a remainder longer than the output
                 ff = int(rng.choice([f for f in (1, 2, 4) if nch % f == 0] + [3, 5, 12]))
                 if nsamps % tf >= nsamps // tf or nch % ff >= nch // ff:
